@@ -163,6 +163,10 @@ def constructor(cfg, profile, transfer_override=None):
     if r == "Borda":
         sv = cfg.get("score_vector")
         sv = None if sv is None else [canon.pf(x) for x in sv]
+        if sv is not None and cfg.get("sv_type") == "tuple":
+            sv = tuple(sv)
+        elif sv is not None and cfg.get("sv_type") == "float" and all(float(x) == x for x in sv):
+            sv = [float(x) for x in sv]
         return lambda: el.Borda(profile, m=m, score_vector=sv, tiebreak=tb)
     if r == "TopTwo":
         return lambda: el.TopTwo(profile, tiebreak=tb)
